@@ -1,7 +1,7 @@
 //! C04 — Merkle vector decommitment is complete and binding.
 use super::merkle::{build_tree, honest_auth};
 use super::{check, Out};
-use crate::compat::assume;
+use crate::compat::{assume, felt_to_word};
 use crate::inp::Inp;
 use alloc::vec::Vec;
 use starknet_crypto::Felt;
@@ -102,8 +102,10 @@ pub fn complete<const H: usize, const K: usize, const NODES: usize, const L: usi
         vals[k] = c.leaves[c.idx[k] as usize];
         k += 1;
     }
-    // `extra` plays the committed root: any value
-    let root = c.extra;
+    // the committed root: either the honest root (computed here, so that a counterexample
+    // replays natively with the real hashes) or any other value, chosen by a symbolic flag
+    let honest = felt_to_word(&c.values[0])[0] & 1 == 1;
+    let root = if honest { nodes[1] } else { c.extra };
     let r = vector_commitment_decommit(commitment::<H>(root, c.f), &queries(&c.idx, &vals), Witness { authentications: auth.to_vec() });
     Out::new(
         check(r.is_ok() == (root == nodes[1]), "honest opening: accepted iff the commitment is the root of the committed tree"),
